@@ -52,6 +52,10 @@ verus! {
 //@verify collect_unique_hctl_vars
 //@verify check_hctl_var_support
 //@assume parse_and_minimize_hctl_formula
+// further functions of the front end that entry points could call (kept in reach so that a changed call is checked against their contracts)
+//@assume parse_hctl_formula
+//@assume parse_extended_formula
+//@assume validate_props_and_rename_vars
 //@verify parse_and_validate
 //@verify _model_check_multiple_formulae_dirty
 //@verify model_check_multiple_formulae_dirty
